@@ -8,7 +8,7 @@ process level (here): every string up to length 3 (thorough 4) executed by the r
 import itertools
 import os
 
-from .. import common
+from .. import common, ptydrv
 
 SIGMA_A = [" ", "a", "1", "é", "'", '"', "`", "\\", "$", "(", ")", "|", "&", ">"]
 SIGMA_B = ["{", "}", ",", ".", "*", "~", "<", ";", "#", "=", "+", "^", "1", "a"]
@@ -99,6 +99,42 @@ def exec_case(case):
         common.drop_case_dir(d)
 
 
+KEYS = ['a', ' ', "'", '"', '\\', '|', 'é', '\t', '\r', '\x03']
+
+
+def key_session(seq):
+    """type a key sequence into the real interactive binary, then Ctrl-C, Enter and a sentinel line"""
+    d = common.fresh_case_dir()
+    try:
+        s = ptydrv.Session(d)
+        if not s.start():
+            s.close()
+            return seq, 'machinery', 'no prompt'
+        for k in seq:
+            s.send(k)
+            s.pump(0.002)
+        s.pump(0.03)
+        # abandon whatever is on the line (also leaves a continuation prompt), then run the sentinel
+        s.send('\x03')
+        s.pump(0.02)
+        s.send('\r')
+        s.pump(0.02)
+        s.send('vh-mark SENTINEL 0\r')
+        got = s.wait(lambda: any(x.get('k') == 'mark' and x['argv'][:1] == ['SENTINEL'] for x in s.records()), 5.0)
+        alive = s.alive()
+        tail = s.buf[-200:].decode('utf-8', 'replace')
+        s.kill()
+        if not alive:
+            return seq, 'shell-died', tail
+        if b'panicked at' in s.buf:
+            return seq, 'panic', tail
+        if not got:
+            return seq, 'sentinel-not-run', tail
+        return seq, 'ok', None
+    finally:
+        common.drop_case_dir(d)
+
+
 def ends_open(s):
     # a trailing backslash joins the next line by design
     return s.endswith('\\')
@@ -113,7 +149,7 @@ def run(rep, tier):
         'prefix-closed enumeration: highlighting / word-start of "every prefix" is covered because every shorter string is itself a case',
         'hang = no progress for 2 s on a sub-millisecond case, confirmed alone with a 4x limit (in-process) / 10 s then 40 s (binary)',
         'real-binary layer: strings are executed as lines of one script per batch of 40 (a failing batch is bisected to single lines) and, up to the smaller stated length, one `-c` process per string',
-        'keystroke sequences on a pseudo-terminal are not part of this check (see DESIGN.md, C05 limits)',
+        'keystroke layer: every sequence of up to 3 (thorough 4) keys over ten keys (letters, blank, quotes, backslash, pipe, multi-byte, TAB, Enter, Ctrl-C) typed into the real interactive binary on a pty; a failure is believed only if reproduced alone',
     ]
     res = common.run_engine('C05', tier)
     rep.merge_engine(res)
@@ -153,6 +189,29 @@ def run(rep, tier):
                 rep.violation('binary:' + kind, {'mode': mode, 'line': lines[0] if len(lines) == 1 else None, 'lines': lines},
                               'no crash, no hang, sentinel runs', info,
                               repro=("cicada -c %s" % common.shquote(lines[0])) if mode == 'c' else 'script of these lines + sentinel line')
+    # key sequences on a pseudo-terminal (the real line editor, highlighter, completer, Enter function)
+    import itertools as _it
+    kmax = 4 if tier == 'thorough' else 3
+    kseqs = [t for n in range(1, kmax + 1) for t in _it.product(KEYS, repeat=n)]
+    for seq, kind, info in common.pmap(key_session, kseqs, workers=6, chunk=8):
+        rep.evaluations += 1
+        rep.transitions += len(seq)
+        if kind == 'ok':
+            rep.outcome('keys-ok')
+            agree += 1
+        elif kind == 'machinery':
+            rep.machinery.append('pty: %s' % info)
+        else:
+            # believed only if reproduced alone
+            seq2, kind2, info2 = key_session(seq)
+            if kind2 == 'ok':
+                rep.outcome('keys-ok')
+                agree += 1
+                continue
+            rep.outcome('keys-' + kind2)
+            rep.violation('keys:' + kind2, {'keys': [repr(k) for k in seq]}, 'the shell survives and runs the next command', info2,
+                          repro='type the keys at the interactive prompt, then Ctrl-C, Enter, a command')
+    rep.bounds.append({'layer': 'pty: key sequences over %r then Ctrl-C, Enter, sentinel' % KEYS, 'len': kmax, 'sessions': len(kseqs), 'complete': True})
     rep.traces_validated = agree
     rep.bounds.append({'layer': 'real binary: script lines + sentinel', 'len': L_script, 'complete': True})
     rep.bounds.append({'layer': 'real binary: -c', 'len': L_c, 'complete': True})
